@@ -711,6 +711,11 @@ class _LintFixture(_np.ndarray):
             seen = len(self.array)
             self._seen = seen
         return seen
+    def cached_tuple(self, east, north, up):
+        same = hasattr(self, 'grid') and (east, north) == (self.east, self.north)
+        self.east = east
+        self.north = north
+        self.rebuild(east + up, fresh=not same)
     def cached_early(self, rate, step, scale):
         key2 = (rate, scale)
         if key2 == self._key2:
@@ -851,7 +856,7 @@ def self_test(chk, prog):
         signature(sink, p5, [FIXTURE_HOST])
     except Exception as e:
         chk.error("lint SIGNATURE crashed on its positive example: %s: %s" % (type(e).__name__, e))
-    for name in list(ALL) + ["SHADOW-REBIND.memo", "SHADOW-REBIND.derived", "CACHE-KEY.property", "CACHE-KEY.early", "LATCH.data", "CASE-MIXED.ctor", "SIGN-CANON.rows"]:
+    for name in list(ALL) + ["SHADOW-REBIND.memo", "SHADOW-REBIND.derived", "CACHE-KEY.property", "CACHE-KEY.early", "CACHE-KEY.tuple", "LATCH.data", "CASE-MIXED.ctor", "SIGN-CANON.rows"]:
         fired = name in sink.rules
         chk.canary("lint %s fires on its embedded positive example" % name, fired, "" if fired else "no finding on the fixture")
 
@@ -1377,7 +1382,7 @@ def cache_key(chk, prog, files):
                             "change (e.g. another model file loaded) the cached result is stale" % (ast.unparse(cmp_)[:60], ", ".join("self." + a_ for a_ in stale_state)), line=cmp_.lineno)
             missing = sorted(need - key_params)
             if missing:
-                chk.finding("CACHE-KEY.early" if early_nodes and not guarded_nodes[:len(guarded_nodes) - len(early_nodes)] else "CACHE-KEY", f.module.rel, f.qname, "key self.%s = %s" % (attr, ast.unparse(key_expr)[:60]),
+                chk.finding("CACHE-KEY.early" if early_nodes and not guarded_nodes[:len(guarded_nodes) - len(early_nodes)] else ("CACHE-KEY.tuple" if tuple_form else "CACHE-KEY"), f.module.rel, f.qname, "key self.%s = %s" % (attr, ast.unparse(key_expr)[:60]),
                             "the work skipped while `%s` is unchanged also depends on %s, which the remembered key (%s) does not contain: a call that changes only %s reuses stale results"
                             % (ast.unparse(cmp_)[:60], ", ".join("`%s`" % m for m in missing), ", ".join(sorted(key_params)), "/".join(missing)), line=cmp_.lineno)
     # memoising decorators on methods: @cached_property / @lru_cache / @cache.  The cached value is keyed on nothing (cached_property) or on the explicit
